@@ -328,7 +328,7 @@ def generated_cases(draw):
 def _generated_text(spec, rows, end):
     if spec["fmt"]["format"] == "fixed":
         return "".join("".join(row) + end for row in rows)
-    return gen_tables.delimited_text(rows, end)
+    return gen_tables.delimited_text(rows, end, spec["fmt"])
 
 
 def _generated_op(cid, spec, tables, op, held):
